@@ -139,6 +139,17 @@ PROPS['C10'] = dict(
     explanation='kernel: hash check dominates use, cleanup on failed patch, candidate order proved; end-to-end fallback policy not decided',
     not_decided=['full cross product of system dependency x constraint x fallback kind x wrap_mode x force_fallback_for x required x allow_fallback', 'repeated lookups return the same dependency', 'nothing fetched under nodownload (only the local cases are exercised, bounded)'],
 )
+PROPS['C08'] = dict(
+    modules=['contracts.persist'],
+    bounded=['bounded.persist'],
+    level='other',
+    design_ref='DESIGN.md §4 C08',
+    technique='deductive (kernel): region contracts on the storing step of OptionStore.set_option and the -U step of set_from_configure_command (opaque keys/options, override table as a symbolic map with a frame clause); -D/-U sequences and option-file edits through the real OptionStore bounded-exhaustive against a reference model',
+    level_text='Proved for all keys, values and override tables: a per-subproject -D override always stores exactly the value given (whatever the inherited value) and touches no other key; an option given directly stores the validated value and stops yielding; -U of an override removes exactly that override and marks the store dirty, -U of an unknown key is an error. Lifecycle behaviour over command sequences and option-file edits is checked bounded.',
+    level_note='Assumed: key normalisation and option lookup; opaque option objects (set_value as an effect). Region contracts verify one statement of set_option / set_from_configure_command. NOT decided: pickling to disk, --wipe re-derivation from recorded command lines, rollback when configure fails, multi-process histories.',
+    explanation='kernel: in-memory -D/-U transitions proved; persistence across processes and failure rollback not decided',
+    not_decided=['setup --wipe re-derives the configuration from the recorded command lines', 'a failing configure/reconfigure leaves every persisted value as it was', 'coredata pickling'],
+)
 
 # properties with no check yet or outside the technique, each with the reason
 NOT_APPLICABLE = {
